@@ -143,7 +143,8 @@ func takeCensus() census {
 				c.allParked = false
 				c.busy = g.body
 			}
-		case strings.Contains(g.body, "main.(*realSess).peerReadLoop(") || strings.Contains(g.body, "main.(*realSess).peerWrite("):
+		case strings.Contains(g.body, "main.(*realSess).peerReadLoop(") || strings.Contains(g.body, "main.(*realSess).peerWrite(") ||
+			strings.Contains(g.body, "main.(*realSess).peerPacedLoop("):
 			if !parkedState(g) {
 				c.allParked = false
 				c.busy = g.body
